@@ -263,6 +263,17 @@ class Evaluator:
         if not projs:
             locals_[p["l"]] = val
             return
+        if len(projs) > 1 and all(e["k"] == "f" for e in projs):
+            cur = locals_.get(p["l"])
+            for e in projs[:-1]:
+                if isinstance(cur, Adt):
+                    cur = cur.fields[e["i"]]
+                else:
+                    raise Undecided("nested assignment into %r" % (cur,))
+            if isinstance(cur, Adt):
+                cur.fields[projs[-1]["i"]] = val
+                return
+            raise Undecided("nested assignment into %r" % (cur,))
         if len(projs) == 1 and projs[0]["k"] == "f":
             cur = locals_.get(p["l"])
             i = projs[0]["i"]
@@ -346,13 +357,21 @@ class Evaluator:
         base = op.replace("WithOverflow", "").replace("Unchecked", "")
         r = {"Eq": lambda: int(a == b), "Ne": lambda: int(a != b), "Lt": lambda: int(a < b), "Le": lambda: int(a <= b),
              "Gt": lambda: int(a > b), "Ge": lambda: int(a >= b), "BitAnd": lambda: a & b, "BitOr": lambda: a | b,
-             "BitXor": lambda: a ^ b, "Add": lambda: a + b, "Sub": lambda: a - b, "Mul": lambda: a * b}.get(base)
+             "BitXor": lambda: a ^ b, "Add": lambda: a + b, "Sub": lambda: a - b, "Mul": lambda: a * b,
+             "Div": lambda: _idiv(a, b), "Rem": lambda: a - b * _idiv(a, b), "Shl": lambda: a << b, "Shr": lambda: a >> b}.get(base)
         if r is None:
             raise Undecided("binop " + op)
         v = r()
         if op.endswith("WithOverflow"):
             return (v, 0)
         return v
+
+
+def _idiv(a, b):
+    if b == 0:
+        raise Panic('division by zero')
+    q = abs(a) // abs(b)
+    return -q if (a < 0) != (b < 0) else q
 
 
 def tabulate(P, fn, domain, summaries, consts=None, inline=(), dispatch=None):
